@@ -19,9 +19,18 @@ var replayDrivers = map[string]struct {
 	file string
 	run  string
 }{
-	"db":  {"db", "db/zz_verif_replay_test.go", "TestVerifReplayDB"},
-	"acl": {"acl", "acl/zz_verif_replay_test.go", "TestVerifReplayACL"},
+	"db":           {"db", "db/zz_verif_replay_test.go", "TestVerifReplayDB"},
+	"acl":          {"acl", "acl/zz_verif_replay_test.go", "TestVerifReplayACL"},
+	"client/setec": {"client/setec", "client/setec/zz_verif_replay_test.go", "TestVerifReplaySetec"},
+	"server":       {"server", "server/zz_verif_replay_test.go", "TestVerifReplayServer"},
+	"audit":        {"audit", "audit/zz_verif_replay_test.go", "TestVerifReplayAudit"},
+	"cmd/setec":    {"cmd/setec", "cmd/setec/zz_verif_replay_test.go", "TestVerifReplayCLI"},
 }
+
+// at most this many driver runs per check (each is a `go test` of up to a minute)
+const maxReplays = 4
+
+var replaysDone = 0
 
 var replayCache = map[string]replayResult{}
 
@@ -29,6 +38,10 @@ func tryReplay(verif, repo, prop string, o *Obligation, all []*Obligation) repla
 	if r, ok := replayCache[o.Func]; ok {
 		return r
 	}
+	if replaysDone >= maxReplays {
+		return replayResult{Note: "replay budget of this run used up by earlier obligations (see their replay files)"}
+	}
+	replaysDone++
 	r := tryReplay1(verif, repo, prop, o, all)
 	replayCache[o.Func] = r
 	return r
